@@ -1,12 +1,13 @@
 """Run every claimed quick check on a behaviour-preserving refactoring produced by a sub-agent.
-usage: check_benign.py <pid> <A|B>   reads /tmp/seedb-<pid>/<X>/{patch.diff,demo.py,meta.json}, records under seeded/benign-<pid>-<X>/"""
+usage: check_benign.py <pid> <A|B> [round]  reads /tmp/seedb[round]-<pid>/<X>/{patch.diff,demo.py,meta.json}, records under seeded/benign-<pid>-<X>/"""
 import json, os, shutil, subprocess, sys, tempfile
 pid, X = sys.argv[1], sys.argv[2]
-src = "/tmp/seedb-%s/%s" % (pid, X)
-dst = "/verif/seeded/benign-%s-%s" % (pid, X)
+rnd = sys.argv[3] if len(sys.argv) > 3 else ""     # "" = first benign round, "2" = second ...
+src = "/tmp/seedb%s-%s/%s" % (rnd, pid, X)
+dst = "/verif/seeded/benign-%s-%s%s" % (pid, ("r%s" % rnd) if rnd else "", X)
 run = lambda cmd, **k: subprocess.run(cmd, capture_output=True, text=True, **k)
 wt = tempfile.mkdtemp(prefix="benwt-"); os.rmdir(wt)
-res = {"pid": pid, "X": X}
+res = {"pid": pid, "X": X, "round": rnd or "1"}
 try:
     assert run(["git", "-C", "/repo", "worktree", "add", "--detach", wt, "HEAD"]).returncode == 0
     demo = os.path.join(src, "demo.py")
